@@ -287,7 +287,15 @@ WebSocketMsg WebSocket::receive()
 			len = _socket.read<unsigned short>();
 		}
 		else if (len == 127)
-			len = (int)_socket.read<Long>(); // what if length larger than int?
+		{
+			Long len64 = _socket.read<Long>();
+			if (len64 < 0 || len64 > 0x7fffffff) // not representable as a message length: protocol error
+			{
+				close();
+				return msg.fix();
+			}
+			len = (int)len64;
+		}
 
 		unsigned mask = 0;
 		if (masked)
